@@ -336,3 +336,30 @@ pub mod d12_verbatim_names {
         },
     }
 }
+
+pub mod d13_help_like_names {
+    //! options the user names like the help switch: a generated short `h` (from `host`) and an explicit short `h` on a flag;
+    //! the derived parser treats them like any other declared option (whether `-h` reaches it is the CLI's business)
+    use embedded_cli::Command;
+
+    #[derive(Command)]
+    pub enum Cmd<'a> {
+        /// Option with a generated short h
+        Connect {
+            /// host to connect to
+            #[arg(short, long)]
+            host: Option<&'a str>,
+            /// port
+            #[arg(short, long)]
+            port: Option<u8>,
+        },
+        /// Flag with an explicit short h
+        Dump {
+            /// hex output
+            #[arg(short = 'h')]
+            hex: bool,
+            /// what to dump
+            what: &'a str,
+        },
+    }
+}
